@@ -149,6 +149,9 @@ typedef struct unit {
     int late;           /* resumed (by the external thread) only after the stream joins have been issued */
     ABT_thread th;
     volatile int created, want_resume, resumed, cancelled, looping, token, started, accounted;
+    ABT_thread lp_partner; /* a looping unit's partner for directed yields, parked in lp_hold (no scheduler) */
+    ABT_pool lp_hold;
+    volatile int lp_stop, lp_on;
 } unit_t;
 typedef struct {
     unit_t *u;
@@ -188,6 +191,30 @@ static void pause_any(int who)
     abtv_idle_hint();
 }
 static ABT_pool pool_of(unit_t *u) { return g_pool[u->pool % g_nes][0]; }
+static int pool_size(ABT_pool p);
+static void lp_partner_body(void *a)
+{
+    unit_t *u = (unit_t *)a;
+    while (!u->lp_stop)
+        ABT_thread_yield();
+}
+/* after the looping unit is gone: let its partner finish (on the primary stream) and free it */
+static void lp_cleanup(int who, unit_t *c)
+{
+    if (!c->lp_on)
+        return;
+    c->lp_on = 0;
+    c->lp_stop = 1;
+    while (state_of(c->lp_partner) != 3) {
+        ABT_thread t = ABT_THREAD_NULL;
+        CHK(ABT_pool_pop_thread(c->lp_hold, &t));
+        if (t != ABT_THREAD_NULL)
+            CHK(ABT_pool_push_thread(g_pool[0][0], t));
+        pause_any(who);
+    }
+    CHK(ABT_thread_free(&c->lp_partner));
+    CHK(ABT_pool_free(&c->lp_hold));
+}
 
 /* what the calling ULT reads as its own state: a running unit never sees anything but RUNNING,
  * whichever way control came back to it (popped by a scheduler or handed over directly) */
@@ -256,6 +283,7 @@ static void do_free(int who, unit_t *c)
             c->accounted = 1;
             __sync_sub_and_fetch(&g_live, 1);
         }
+        lp_cleanup(who, c);
         return;
     } else {
         CHK(ABT_thread_free(&c->th));
@@ -266,6 +294,7 @@ static void do_free(int who, unit_t *c)
         c->accounted = 1;
         __sync_sub_and_fetch(&g_live, 1);
     }
+    lp_cleanup(who, c);
 }
 static void do_revive(int who, unit_t *c)
 {
@@ -364,10 +393,21 @@ static void run_script(unit_t *u, int inc)
                 break;
             case OP_LOOP:
                 /* runs until cancelled */
+                if (rnd(2)) {
+                    CHK(ABT_pool_create_basic(ABT_POOL_FIFO, ABT_POOL_ACCESS_MPMC, ABT_FALSE, &u->lp_hold));
+                    CHK(ABT_thread_create(u->lp_hold, lp_partner_body, u, ABT_THREAD_ATTR_NULL, &u->lp_partner));
+                    u->lp_on = 1;
+                }
                 u->looping = 1;
                 for (;;) {
-                    EV("\"e\":\"Yield\",\"u\":%d", who);
-                    CHK(ABT_thread_yield());
+                    /* the cancellation request is honoured at a plain or at a directed yield */
+                    if (u->lp_on && rnd(2) && pool_size(u->lp_hold) == 1) {
+                        EV("\"e\":\"YieldTo\",\"u\":%d", who);
+                        CHK(ABT_thread_yield_to(u->lp_partner));
+                    } else {
+                        EV("\"e\":\"Yield\",\"u\":%d", who);
+                        CHK(ABT_thread_yield());
+                    }
                     EV("\"e\":\"Back\",\"u\":%d", who);
                     abtv_idle_hint();
                 }
